@@ -108,9 +108,21 @@ def _render_spec(spec: dict[str, Any]) -> Any:
     key = json.dumps(spec.get("env") or {}, sort_keys=True)
     env = _ENVS.get(key)
     if env is None:
-        env = _ENVS[key] = drv.make_env(spec.get("env") or {})
+        cfg = dict(spec.get("env") or {})
+        loader = None
+        if cfg.get("templates"):
+            from liquid import CachingDictLoader, CachingFileSystemLoader  # noqa: F401
+
+            loader = CachingDictLoader(dict(cfg.pop("templates")), auto_reload=cfg.pop("auto_reload", True), capacity=cfg.pop("capacity", 8))
+        env = _ENVS[key] = drv.make_env(cfg, loader=loader)
     data = V.dec(spec["data"])
-    o = drv.parse_and_render(env, spec["source"], data, use_async=spec.get("async", False))
+    if spec.get("get"):
+        # the template comes from the environment's (caching) loader; `globals` given with a request belong to that request only
+        kw = {"globals": dict(spec["globals"])} if spec.get("globals") is not None else {}
+        t = drv.call_async(env.get_template_async, spec["get"], **kw) if spec.get("async") else drv.call(env.get_template, spec["get"], **kw)
+        o = (drv.render_async(t.value, data) if spec.get("async") else drv.render(t.value, data)) if t.ok else t
+    else:
+        o = drv.parse_and_render(env, spec["source"], data, use_async=spec.get("async", False))
     return o.key() if o.ok else ["err", o.err_class, drv.safe_str(o.exc).split("\n")[0][:100]]
 
 
@@ -350,7 +362,7 @@ def spec(source: str, data: dict[str, Any], env: dict[str, Any] | None = None, i
 
 
 def gen_history_case(rng) -> dict[str, Any]:
-    aim = rng.choice(["date-equal-values", "date-equal-values", "date-markup-format", "lexer-parser-configs", "generated", "counters-and-cycles", "equal-distinct-through-filters", "equal-distinct-through-filters"])
+    aim = rng.choice(["date-equal-values", "date-equal-values", "date-markup-format", "lexer-parser-configs", "generated", "counters-and-cycles", "equal-distinct-through-filters", "equal-distinct-through-filters", "caching-loader-requests"])
     hist: list[dict[str, Any]] = []
     if aim == "date-equal-values":
         fmt = rng.choice(FMTS)
@@ -395,6 +407,22 @@ def gen_history_case(rng) -> dict[str, Any]:
             m = rng.choice(fam)
             hist.append(spec(src, {"v": m, "w": m}, e))
         probe = spec(src, {"v": pv, "w": pv}, e)
+    elif aim == "caching-loader-requests":
+        # one environment with a caching loader: requests for the same names with / without per-request globals, then a probe request
+        tpls = {"t1": "<t1>[g={{ g }}][h={{ h }}][e={{ eg }}]{% include 't2' %}", "t2": "<t2>[g={{ g }}][x={{ x }}]", "t3": "{% render 't2', x: g %}"}
+        e = {"templates": tpls, "capacity": rng.choice([1, 2, 8]), "auto_reload": rng.random() < 0.5}
+        if rng.random() < 0.4:
+            e["globals"] = {"eg": "EG"}
+
+        def req():
+            g = rng.choice([None, None, {"g": f"G{rng.randint(1, 3)}"}, {"g": "G9", "h": "H"}, {}])
+            sp = spec("", {"x": rng.choice([1, 2])}, e, rng.random() < 0.3)
+            sp["get"] = rng.choice(["t1", "t1", "t2", "t3"])
+            sp["globals"] = g
+            return sp
+
+        hist = [req() for _ in range(rng.randint(1, 6))]
+        probe = req()
     elif aim == "lexer-parser-configs":
         srcs = ["{% if a %}A{% else %}B{% endif %}{{ x | upcase }}", "{{ a ? 'y' : 'n' }}", "{% if not a %}N{% endif %}", "{% if (a or b) and c %}P{% endif %}", "{# c #}x{{ a }}", "{{ 'abc'.first }}{{ s[0] }}",
                 "{% unknown %}", "{{ x | nosuch }}", "{% if a %}", "{{ a[ }}"]
